@@ -1,9 +1,13 @@
 #!/bin/sh
 # seed_run.sh <patch.diff> <check-id> [extra args]: apply a seeded change to /repo, run a check, restore /repo
+# (the evidence file of the check is saved and put back: evidence in /verif/evidence always describes the unchanged tree)
 P=$1; ID=$2; shift 2
 cd /repo && git diff --quiet || { echo "/repo not clean"; exit 9; }
 git -C /repo apply "$P" || exit 8
+base=$(echo $ID | sed 's/-.*//')
+[ -f /verif/evidence/$base.json ] && cp /verif/evidence/$base.json /tmp/seedrun_ev_$base.json
 cd /verif && bin/check $ID "$@" > /tmp/seedrun_$ID.log 2>&1; rc=$?
 git -C /repo checkout -- .
+[ -f /tmp/seedrun_ev_$base.json ] && mv /tmp/seedrun_ev_$base.json /verif/evidence/$base.json
 grep -E "VIOLATION|^OK|INFRASTRUCTURE|KNOWN" /tmp/seedrun_$ID.log | head -5
 echo "check $ID rc=$rc"
